@@ -304,6 +304,65 @@ def check(ctx):
                    "that update neither succeeds nor reports 'not applied' and its entry keeps the writing flag")
     _refusal(ctx, repo, base_lock)
     _completion_order(ctx, repo, cg)
+    _lock_identity(ctx, repo, cfuncs, base_lock)
+
+
+def _lock_identity(ctx, repo, cfuncs, base_lock):
+    """C18-R8: a per-file lock excludes the other updates of that file only if everybody gets THE SAME lock object: it is looked up
+       or created in an unbounded table owned by the cache, in one critical section of the cache lock."""
+    ctx.rule("C18-R8", "per-file lock identity: a lock taken with `with <local>` in the cache classes is obtained by lookup-or-create in a table attribute (dict / WeakValueDictionary made in __init__) "
+                       "inside one critical section of the cache lock; no bounded memo, no unguarded setdefault, no lock made per call")
+    from ..common import name_defs
+    tables = set()
+    for f in cfuncs:
+        if f.name != "__init__":
+            continue
+        for n in walk_local(f.node):
+            if isinstance(n, ast.Assign) and len(n.targets) == 1 and dotted(n.targets[0]) and dotted(n.targets[0]).startswith("self."):
+                v = n.value
+                if isinstance(v, ast.Dict) or (isinstance(v, ast.Call) and (dotted(v.func) or "").split(".")[-1] in ("dict", "WeakValueDictionary", "defaultdict")):
+                    tables.add(dotted(n.targets[0])[5:])
+    n_sites = 0
+    for f in cfuncs:
+        for w in walk_local(f.node):
+            if not isinstance(w, (ast.With, ast.AsyncWith)):
+                continue
+            for it in w.items:
+                e = it.context_expr
+                if not isinstance(e, ast.Name):
+                    continue
+                n_sites += 1
+                ctx.instance("C18-R8", f.fq, f"with {e.id}")
+                defs = name_defs(f.node, e.id)
+                bad = None
+                stored = False
+                if not defs:
+                    bad = (w, f"`{e.id}` is not bound by a local assignment (parameter or global lock): its identity per file cannot be established")
+                for v, st in defs:
+                    held = base_lock in held_locks(st, f.node)
+                    tbl = None
+                    if isinstance(v, ast.Call) and isinstance(v.func, ast.Attribute) and v.func.attr in ("get", "setdefault") and (dotted(v.func.value) or "").startswith("self."):
+                        tbl = dotted(v.func.value)[5:]
+                    elif isinstance(v, ast.Subscript) and (dotted(v.value) or "").startswith("self."):
+                        tbl = dotted(v.value)[5:]
+                    if tbl is not None:
+                        if tbl not in tables:
+                            bad = bad or (st, f"`{src(v)[:50]}` reads the lock from self.{tbl}, which is not a plain table created in __init__")
+                        elif not held:
+                            bad = bad or (st, f"`{src(v)[:50]}` looks the lock up (or creates it) without holding {base_lock}: two first users of one file can each create and take their own lock")
+                        continue
+                    if isinstance(v, ast.Call) and (dotted(v.func) or "").split(".")[-1] in ("Lock", "RLock"):
+                        # creation: must be published into a table in the same critical section
+                        pub = [a for a in walk_local(f.node) if isinstance(a, ast.Assign) and isinstance(a.targets[0], ast.Subscript) and (dotted(a.targets[0].value) or "")[5:] in tables
+                               and isinstance(a.value, ast.Name) and a.value.id == e.id and base_lock in held_locks(a, f.node)]
+                        if not (held and pub):
+                            bad = bad or (st, f"a new lock is made here but not published into a table of the cache under {base_lock}: every caller locks its own private lock")
+                        stored = True
+                        continue
+                    bad = bad or (st, f"the lock is the result of `{src(v)[:50]}`: not a lookup in a table of the cache (a memoising function may evict and re-create the lock of a file while another thread holds the old one)")
+                ctx.ob("C18-R8", f.fq, f"`with {e.id}`: the lock is the one lock of that file (lookup-or-create under {base_lock} in a table made in __init__)", bad is None,
+                       node=(bad[0] if bad else w), construct=f"identity of per-file lock {e.id} in {f.name}", msg=(bad[1] if bad else None))
+    ctx.floor("C18-R8", "per-file lock acquisitions", n_sites, 1)
 
 
 def _sections(f, base_lock, assume):
@@ -620,6 +679,10 @@ MUTATION_SCOPE = ['db/file_cache:FileCache._load_file',
                   'db/df_cache:PandasDataFrameCache.update']
 
 SEEDS = [
+    Seed("lock-table-setdefault-unguarded", "fault", "db/df_cache", "        with self.file_futures_lock:\n            flock = self.append_locks.get(file_name)\n            if flock is None:\n                flock = threading.Lock()\n                self.append_locks[file_name] = flock\n",
+         "        flock = self.append_locks.setdefault(file_name, threading.Lock())\n", rule="C18-R8"),
+    Seed("lock-per-call", "fault", "db/df_cache", "            flock = self.append_locks.get(file_name)\n            if flock is None:\n                flock = threading.Lock()\n                self.append_locks[file_name] = flock\n",
+         "            flock = threading.Lock()\n", rule="C18-R8"),
     Seed("makedirs-check-then-create", "fault", "db/file_cache", "        os.makedirs(write_path, exist_ok=True)", "        if not os.path.isdir(write_path):\n            os.makedirs(write_path)", rule="C18-R7"),
     Seed("unload-subtracts-only-when-done", "fault", "db/file_cache", "            self.current_memory_usage -= info[1]\n            del self.file_futures[file_name]",
          "            if info[-1].done():\n                self.current_memory_usage -= info[1]\n            del self.file_futures[file_name]", rule="C18-R4"),
